@@ -12,7 +12,11 @@ var long300 = `"` + strings.Repeat("x", 300) + `"`
 const badUTF8 = "\"\xff\"" // a string whose only byte is 0xff (insane-json accepts it: checked at start)
 
 // scalars: null, true, 0, -1, 1e400, "", "a", 300-byte string, invalid UTF-8, string ending in the \n escape
-var scalars = []string{`null`, `true`, `0`, `-1`, `1e400`, `""`, `"a"`, long300, badUTF8, `"a\n"`}
+// caseShrink: letters whose lower-case form is shorter in bytes (KELVIN SIGN -> k, I WITH DOT ABOVE -> i + combining dot is
+// longer, ANGSTROM SIGN -> a-ring): code that measures before and slices after a case conversion trips over them
+const caseShrink = "\"ab\u0130\u212b\u212a\""
+
+var scalars = []string{`null`, `true`, `0`, `-1`, `1e400`, `""`, `"a"`, long300, badUTF8, `"a\n"`, caseShrink}
 var containers = []string{`[]`, `[1]`, `[{}]`, `{}`}
 
 func nested(inner string, vals []string) []string {
@@ -37,13 +41,13 @@ func leaves(tier string, inner string) []string {
 		l = append(l, nested(inner, []string{`null`, `0`, `1e400`, `""`, `"a"`, long300, badUTF8, `"a\n"`, `[]`, `[{}]`, `{}`})...)
 		return append(l, fmt.Sprintf(`{%q:"a","c":0}`, inner))
 	case "medium":
-		l := []string{`null`, `0`, `1e400`, `""`, `"a"`, long300, badUTF8, `"a\n"`, `[]`, `[{}]`, `{}`}
+		l := []string{`null`, `0`, `1e400`, `""`, `"a"`, long300, badUTF8, `"a\n"`, caseShrink, `[]`, `[{}]`, `{}`}
 		return append(l, nested(inner, []string{`"a"`, `{}`, `""`})...)
 	case "small":
-		l := []string{`null`, `0`, `""`, `"a"`, badUTF8, `[1]`, `{}`}
+		l := []string{`null`, `0`, `""`, `"a"`, badUTF8, caseShrink, `[1]`, `{}`}
 		return append(l, nested(inner, []string{`"a"`})...)
 	case "tiny":
-		l := []string{`"a"`, badUTF8, `{}`}
+		l := []string{`"a"`, badUTF8, caseShrink, `{}`}
 		return append(l, nested(inner, []string{`"a"`})...)
 	case "other-quick":
 		return []string{`"a"`, `{}`}
